@@ -56,7 +56,18 @@ func (g *Gen) afterCallClauses(in *ssa.Call, cc *ssa.CallCommon) {
 		} else {
 			env.results = []TV{{g.val(in), in.Type()}}
 		}
-		t, err := env.evalBool(cl.E)
+		var t string
+		var err error
+		if _, isVar := g.pathVarType[cl.Label]; isVar {
+			var tv TV
+			tv, err = env.eval(cl.E)
+			t = tv.t
+			if err == nil && g.sortOf(tv.ty) != g.keySort[key] {
+				err = fmt.Errorf("value of type %s does not fit pathvar %s", tv.ty, cl.Label)
+			}
+		} else {
+			t, err = env.evalBool(cl.E)
+		}
 		if err != nil {
 			g.errorf("%s: setflag %s at call %s: %v", g.fnLabel(), cl.Label, label, err)
 			continue
